@@ -2,6 +2,7 @@ package sim
 
 import (
 	"encoding/json"
+	"sort"
 	"time"
 
 	"k8s.io/apimachinery/pkg/runtime"
@@ -31,7 +32,7 @@ func NewInformer(name, resource string, fresh bool) *Informer {
 		Name:     name,
 		Resource: resource,
 		Fresh:    fresh,
-		indexer:  cache.NewIndexer(cache.MetaNamespaceKeyFunc, cache.Indexers{cache.NamespaceIndex: cache.MetaNamespaceIndexFunc}),
+		indexer:  sortedIndexer{cache.NewIndexer(cache.MetaNamespaceKeyFunc, cache.Indexers{cache.NamespaceIndex: cache.MetaNamespaceIndexFunc})},
 	}
 }
 
@@ -171,4 +172,33 @@ func (i *Informer) Snapshot() *InformerSnapshot {
 func (i *Informer) Restore(s *InformerSnapshot) {
 	_ = i.indexer.Replace(s.cache, "")
 	i.pending = append([]Event(nil), s.pending...)
+}
+
+// sortedIndexer fixes the order in which listers return objects (the real
+// indexer iterates Go maps). Lister order is thereby owned by the harness: it is
+// always sorted by namespace/name; order-dependence of callers is not explored.
+type sortedIndexer struct{ cache.Indexer }
+
+func sortObjs(in []interface{}) []interface{} {
+	sort.SliceStable(in, func(i, j int) bool {
+		a, _ := cache.MetaNamespaceKeyFunc(in[i])
+		b, _ := cache.MetaNamespaceKeyFunc(in[j])
+		return a < b
+	})
+	return in
+}
+
+func (s sortedIndexer) List() []interface{} { return sortObjs(s.Indexer.List()) }
+func (s sortedIndexer) ListKeys() []string {
+	k := s.Indexer.ListKeys()
+	sort.Strings(k)
+	return k
+}
+func (s sortedIndexer) Index(indexName string, obj interface{}) ([]interface{}, error) {
+	out, err := s.Indexer.Index(indexName, obj)
+	return sortObjs(out), err
+}
+func (s sortedIndexer) ByIndex(indexName, indexedValue string) ([]interface{}, error) {
+	out, err := s.Indexer.ByIndex(indexName, indexedValue)
+	return sortObjs(out), err
 }
